@@ -483,3 +483,192 @@ func DescribeTable(t *Table) []string {
 }
 
 var _ = strings.HasPrefix
+
+
+// ---------------------------------------------------------------- FetchResponseBlock
+
+func CoqFBlock(b *sarama.FetchResponseBlock) string {
+	ab := "None"
+	if b.AbortedTransactions != nil {
+		it := make([]string, len(b.AbortedTransactions))
+		for i, t := range b.AbortedTransactions {
+			it[i] = fmt.Sprintf("(%s, %s)", cf.Z(t.ProducerID), cf.Z(t.FirstOffset))
+		}
+		ab = cf.Some(cf.List(it))
+	}
+	alias := "None"
+	if b.Records != nil {
+		alias = cf.Some(CoqRecordsTop(b.Records))
+	}
+	set := make([]string, len(b.RecordsSet))
+	for i, r := range b.RecordsSet {
+		set[i] = CoqRecordsTop(r)
+	}
+	return fmt.Sprintf("(mkFBlock %s %s %s %s %s %s %s %s %s)", cf.Z(int64(b.Err)), cf.Z(b.HighWaterMarkOffset), cf.Z(b.LastStableOffset),
+		cf.Z(b.LogStartOffset), ab, cf.Z(int64(b.PreferredReadReplica)), alias, cf.List(set), cf.Bool(b.Partial))
+}
+
+// FetchBlock: a partition block with 0-4 record batches (each with at least one record unless allowEmpty), or one
+// non-empty legacy message set (one kind per block).
+func (g *Gen) FetchBlock(version int16, allowEmpty bool) *sarama.FetchResponseBlock {
+	r := g.R
+	b := &sarama.FetchResponseBlock{
+		Err:                  sarama.KError(int16(pick64(r, I16s, math.MinInt16, math.MaxInt16))),
+		HighWaterMarkOffset:  pick64(r, I64s, math.MinInt64, math.MaxInt64),
+		LastStableOffset:     pick64(r, I64s, math.MinInt64, math.MaxInt64),
+		LogStartOffset:       pick64(r, I64s, math.MinInt64, math.MaxInt64),
+		PreferredReadReplica: int32(pick64(r, I32s, math.MinInt32, math.MaxInt32)),
+		RecordsSet:           []*sarama.Records{},
+	}
+	switch r.Intn(4) {
+	case 0: // nil
+	case 1:
+		b.AbortedTransactions = []*sarama.AbortedTransaction{}
+	default:
+		for i, n := 0, 1+r.Intn(3); i < n; i++ {
+			b.AbortedTransactions = append(b.AbortedTransactions, &sarama.AbortedTransaction{ProducerID: r.Int63(), FirstOffset: int64(r.Intn(1000))})
+		}
+	}
+	if r.Intn(5) == 0 {
+		set := g.Set(3, 1)
+		for len(set.Messages) == 0 {
+			set = g.Set(3, 1)
+		}
+		b.RecordsSet = append(b.RecordsSet, &sarama.Records{MsgSet: set})
+	} else {
+		for i, n := 0, r.Intn(5); i < n; i++ {
+			batch := g.Batch(true)
+			for len(batch.Records) == 0 && !(allowEmpty && r.Intn(3) == 0) {
+				batch = g.Batch(true)
+			}
+			b.RecordsSet = append(b.RecordsSet, &sarama.Records{RecordBatch: batch})
+		}
+	}
+	if len(b.RecordsSet) > 0 && r.Intn(3) != 0 {
+		b.Records = b.RecordsSet[0]
+	}
+	return b
+}
+
+// NormFetchBlock: what decode(encode(b, v), v) must be.
+func NormFetchBlock(b *sarama.FetchResponseBlock, v int16) *sarama.FetchResponseBlock {
+	c := &sarama.FetchResponseBlock{Err: b.Err, HighWaterMarkOffset: b.HighWaterMarkOffset, PreferredReadReplica: -1, RecordsSet: []*sarama.Records{}}
+	if v >= 4 {
+		c.LastStableOffset = b.LastStableOffset
+		if v >= 5 {
+			c.LogStartOffset = b.LogStartOffset
+		}
+		c.AbortedTransactions = []*sarama.AbortedTransaction{}
+		c.AbortedTransactions = append(c.AbortedTransactions, b.AbortedTransactions...)
+	}
+	if v >= 11 {
+		c.PreferredReadReplica = b.PreferredReadReplica
+	}
+	for _, rs := range b.RecordsSet {
+		switch {
+		case rs.RecordBatch != nil:
+			if len(rs.RecordBatch.Records) > 0 {
+				c.RecordsSet = append(c.RecordsSet, &sarama.Records{RecordBatch: NormBatch(rs.RecordBatch)})
+			}
+		case rs.MsgSet != nil:
+			c.RecordsSet = append(c.RecordsSet, &sarama.Records{MsgSet: NormSet(rs.MsgSet, func(value []byte) *sarama.MessageSet {
+				d := sarama.VerifDecodeValue("mset", value, 0, 0, nil)
+				if d.Status != 0 {
+					return &sarama.MessageSet{}
+				}
+				return d.Set
+			})})
+		}
+	}
+	if len(c.RecordsSet) > 0 {
+		c.Records = c.RecordsSet[0]
+	}
+	return c
+}
+
+// fetchSectionStart: offset of the records section (after its int32 size) in an encoded block
+func fetchSectionStart(buf []byte, v int16) int {
+	p := 2 + 8
+	if v >= 4 {
+		p += 8
+		if v >= 5 {
+			p += 8
+		}
+		if p+4 > len(buf) {
+			return -1
+		}
+		n := int(int32(binary.BigEndian.Uint32(buf[p:])))
+		p += 4
+		if n > 0 {
+			p += 16 * n
+		}
+	}
+	if v >= 11 {
+		p += 4
+	}
+	p += 4
+	if p > len(buf) || p < 0 {
+		return -1
+	}
+	return p
+}
+
+// ScanFetchBlock: the decompress calls a decode of this block can make (walks the batches of the records section).
+func (t *Table) ScanFetchBlock(buf []byte, v int16) {
+	p := fetchSectionStart(buf, v)
+	if p < 0 {
+		return
+	}
+	end := len(buf)
+	if p >= 4 {
+		if sz := int(int32(binary.BigEndian.Uint32(buf[p-4:]))); sz >= 0 && p+sz <= len(buf) {
+			end = p + sz
+		}
+	}
+	sec := buf[p:end]
+	for q := 0; q+12 <= len(sec); {
+		t.ScanDecompress(sec, q, 0)
+		l := int(int32(binary.BigEndian.Uint32(sec[q+8:])))
+		if l < 0 {
+			break
+		}
+		q += 12 + l
+	}
+}
+
+// EncodeTableFetchBlock: the compress calls of the block's encode, read off the produced bytes element by element.
+func EncodeTableFetchBlock(t *Table, b *sarama.FetchResponseBlock, v int16, out []byte) {
+	p := fetchSectionStart(out, v)
+	if p < 0 {
+		return
+	}
+	sec := out[p:]
+	q := 0
+	for _, rs := range b.RecordsSet {
+		if q+12 > len(sec) {
+			return
+		}
+		switch {
+		case rs.RecordBatch != nil:
+			l := int(int32(binary.BigEndian.Uint32(sec[q+8:])))
+			if l < 0 || q+12+l > len(sec) {
+				return
+			}
+			EncodeTableBatch(t, rs.RecordBatch, sec[q:q+12+l])
+			q += 12 + l
+		case rs.MsgSet != nil:
+			start := q
+			for range rs.MsgSet.Messages {
+				if q+12 > len(sec) {
+					return
+				}
+				l := int(int32(binary.BigEndian.Uint32(sec[q+8:])))
+				if l < 0 || q+12+l > len(sec) {
+					return
+				}
+				q += 12 + l
+			}
+			EncodeTableSet(t, rs.MsgSet, sec[start:q])
+		}
+	}
+}
